@@ -14,7 +14,6 @@ call in a fresh fork of a process that has only imported the library and (2) thr
 `python -m celpy` subprocess.
 """
 import io
-import itertools
 import json
 import logging
 import os
@@ -101,14 +100,33 @@ def tok_len(tier):
     return 4 if tier == "thorough" else 3
 
 
-def tok_strings(tier):
-    """Token strings in simplest-first order, minus the texts that already are -n expressions."""
-    seen = set(n_exprs(tier))
-    for n in range(1, tok_len(tier) + 1):
-        for ts in itertools.product(TOKENS, repeat=n):
-            t = " ".join(ts)
-            if t not in seen:
-                yield t
+def tok_at(n, idx):
+    ts = []
+    for _ in range(n):
+        ts.append(TOKENS[idx % len(TOKENS)])
+        idx //= len(TOKENS)
+    return " ".join(ts[::-1])
+
+
+def tok_cases(tier, n, lo, hi):
+    """Cases of the token strings with n tokens and raw index in [lo, hi), minus the texts that already are
+    -n expressions.  Generated on demand: the thorough space is too large to keep as a list."""
+    seen = _SEEN.get(tier)
+    if seen is None:
+        seen = _SEEN[tier] = set(n_exprs(tier))
+    for idx in range(lo, hi):
+        t = tok_at(n, idx)
+        if t in seen:
+            continue
+        for b in (False, True):
+            yield {"group": "tok", "mode": "null", "boolean": b, "argv": argv_for(["-n"] + (["-b"] if b else []), t), "stdin": "",
+                   "api": {"text": t, "package": None, "var": None, "doc": None}}
+        if n <= 2:
+            yield {"group": "tok", "mode": "doc", "boolean": False, "argv": argv_for([], t), "stdin": DOCS[2] + "\n",
+                   "api": {"text": t, "package": "jq", "var": "jq", "doc": DOCS[2]}}
+
+
+_SEEN = {}
 
 
 def tok_cardinality(tier):
@@ -151,20 +169,13 @@ def build_cases(tier):
 
 
 def _build_cases(tier):
-    """Every non-stream case: dict(group, mode, boolean, argv, stdin, api).  api = how to obtain the
+    """Every non-stream case except the token strings (tok_cases): dict(group, mode, boolean, argv, stdin, api).  api = how to obtain the
     outcome through the library API ({text, package, var, doc}) or a pinned expectation ({"pinned": ...})."""
     cases = []
     for e in n_exprs(tier):
         for b in (False, True):
             cases.append({"group": "n", "mode": "null", "boolean": b, "argv": argv_for(["-n"] + (["-b"] if b else []), e), "stdin": "",
                           "api": {"text": e, "package": None, "var": None, "doc": None}})
-    for i, t in enumerate(tok_strings(tier)):
-        for b in (False, True):
-            cases.append({"group": "tok", "mode": "null", "boolean": b, "argv": argv_for(["-n"] + (["-b"] if b else []), t), "stdin": "",
-                          "api": {"text": t, "package": None, "var": None, "doc": None}})
-        if len(t.split(" ")) <= 2:
-            cases.append({"group": "tok", "mode": "doc", "boolean": False, "argv": argv_for([], t), "stdin": DOCS[2] + "\n",
-                          "api": {"text": t, "package": "jq", "var": "jq", "doc": DOCS[2]}})
     for name, (legal, illegal) in cli.ARG_TYPES.items():
         for text, jval, typed in legal:
             spec = f"x:{name}={text}"
@@ -221,7 +232,7 @@ def stream_of(n, idx):
 
 def subprocess_list(tier):
     """The FIXED list of 200 (argv, stdin, tag) cases that also go through a real `python -m celpy`."""
-    cases = build_cases("quick")
+    cases = build_cases("quick") + [c for n in (1, 2) for c in tok_cases("quick", n, 0, len(TOKENS) ** n)]
 
     def pick(group, pred, count):
         pool = [c for c in cases if c["group"] == group and pred(c)]
@@ -258,10 +269,9 @@ def fresh_list(tier):
 
     for c in build_cases("quick"):
         if tier == "thorough":
-            take = c["group"] in ("arg", "single", "slurp") or (c["group"] == "n" and not c["boolean"]) or \
-                (c["group"] == "tok" and c["mode"] == "null" and not c["boolean"] and len(c["api"]["text"].split(" ")) <= 2)
+            take = c["group"] in ("arg", "single", "slurp")
         else:  # a fresh fork costs 0.2 - 1 s of CPU here (cold regex caches, argparse, lexer), so quick keeps the list short
-            take = c["group"] == "single"
+            take = c["group"] == "single" and c["cfg"] % len(DOC_EXPRS) in (0, 3)
         if take:
             add(c["argv"], c["stdin"])
     return out
@@ -439,17 +449,25 @@ def witness_of(case, obs):
     return w
 
 
+def sclass(oc, boolean):
+    """Outcome class as it matters to the status: under -b every non-bool value is one class."""
+    if oc.startswith("V:") and not (boolean and oc.startswith("V:bool:")):
+        return "V:non-bool" if boolean else "V"
+    return oc
+
+
 def judge_case(part, case, obs, fresh=None):
     st, out, need_loc, oc, pos = expectation(case)
     mode = case["mode"] + ("-b" if case["boolean"] else "")
     cmd = "celpy " + " ".join(json.dumps(a) for a in case["argv"]) + (f" <<< {case['stdin']!r}" if case["mode"] != "null" else "")
-    part.case(nontrivial=st is not UNSPEC)
-    part.outcome(f"{mode}:{oc}->{'unspec' if st is UNSPEC else st}")
+    out_specified = out is not UNSPEC and out is not cli.FREE
+    part.case(nontrivial=st is not UNSPEC or out_specified)
+    part.outcome(f"{mode}:{oc}->{'unspec' if st is UNSPEC else st}" + (":one-line" if out == ("line",) else ""))
     got = code(obs)
     if fresh is not None and not same_obs(fresh, obs):
         part.violation("history-dependent", f"fresh-vs-later:{case['group']}:{mode}:{oc}", dict(witness_of(case, obs), check="fresh", fresh=fresh),
                        f"{cmd}: as the first call in a fresh fork: {show(fresh)}; later in a long-lived worker: {show(obs)}")
-    if st is UNSPEC:
+    if st is UNSPEC and not out_specified:
         if got == "exc":
             part.extra[f"observed:unspec-case-uncaught:{case['group']}:{obs['st'][1]}@{obs['st'][2]}"] += 1
             if len(part.notes) < 4:
@@ -459,10 +477,11 @@ def judge_case(part, case, obs, fresh=None):
         return
     if got == "exc":
         part.violation("uncaught-exception", f"{mode}:uncaught:{obs['st'][1]}@{obs['st'][2]}", witness_of(case, obs),
-                       f"{cmd}: expected status {st}, main() raised {obs['st'][1]} at {obs.get('at')} ({oc})")
+                       f"{cmd}: expected {'status ' + str(st) if st is not UNSPEC else 'one output line'}, main() raised {obs['st'][1]} at {obs.get('at')} ({oc})")
         return
-    if got != st:
-        part.violation("wrong-status", f"{mode}:status:{oc}:exp={st}:got={got}", witness_of(case, obs),
+    if st is not UNSPEC and got != st:
+        smode = case["mode"] if oc == "malformed" else mode  # -b plays no part in the status of a malformed document
+        part.violation("wrong-status", f"{smode}:status:{sclass(oc, case['boolean'])}:exp={st}:got={got}", witness_of(case, obs),
                        f"{cmd}: outcome {oc}: expected status {st}, got {obs['st']}; stdout {obs['out']!r}")
     prob = cli.stdout_problem(out, obs["out"])
     if prob:
@@ -478,7 +497,10 @@ def judge_case(part, case, obs, fresh=None):
 def case_shard(task):
     tier, group, lo, hi, fresh = task
     part = runner.Part()
-    cases = [c for c in build_cases(tier) if c["group"] == group][lo:hi]
+    if group == "tok":
+        cases = list(tok_cases(tier, lo[0], lo[1], hi))
+    else:
+        cases = [c for c in build_cases(tier) if c["group"] == group][lo:hi]
     if group == "arg" and lo == 0:
         import celpy.__main__ as cm
         extra, missing = sorted(set(cm.CLI_ARG_TYPES) - set(cli.ARG_TYPES)), sorted(set(cli.ARG_TYPES) - set(cm.CLI_ARG_TYPES))
@@ -496,7 +518,7 @@ def case_shard(task):
     part.extra["fresh_fork_comparisons"] += sum(1 for c in cases if case_key(c["argv"], c["stdin"]) in fresh)
     part.extra["logging_state_changed_by_main"] += LOG_CHANGES[0]
     LOG_CHANGES[0] = 0
-    if lo == 0 and cases:
+    if lo in (0, (1, 0)) and cases:
         part.sample({"group": group, "first": cases[0]["argv"], "last_in_shard": cases[-1]["argv"]})
     return part
 
@@ -614,10 +636,45 @@ def judge_subprocess(part, argv, stdin_text, tag, inproc, sub):
 
 def subprocess_shard(task):
     part = runner.Part()
-    for argv, stdin_text, tag in task:
-        judge_subprocess(part, argv, stdin_text, tag, drive(argv, stdin_text), run_subprocess(argv, stdin_text))
+    for argv, stdin_text, tag, sub in task:
+        judge_subprocess(part, argv, stdin_text, tag, drive(argv, stdin_text), sub)
     part.space("subprocess-fixed-list", 0, len(task))
     return part
+
+
+def start_subprocess_helper(items, conc):
+    """Fork a helper (it never touches the library) that runs the fixed list through real interpreter
+    processes, `conc` at a time, while the in-process phases use the worker pool; -> (pid, result path)."""
+    os.makedirs(SCRATCH, exist_ok=True)
+    path = os.path.join(SCRATCH, f"subprocess-results-{os.getpid()}.json")
+    sys.stdout.flush()
+    pid = os.fork()
+    if pid != 0:
+        return pid, path
+    status = 7
+    try:
+        from concurrent.futures import ThreadPoolExecutor
+
+        with ThreadPoolExecutor(conc) as ex:
+            results = list(ex.map(lambda it: run_subprocess(it[0], it[1]), items))
+        with open(path + ".tmp", "w") as f:
+            json.dump(results, f)
+        os.replace(path + ".tmp", path)
+        status = 0
+    except BaseException:  # noqa
+        traceback.print_exc()
+    finally:
+        os._exit(status)
+
+
+def collect_subprocess_helper(pid, path):
+    _, st = os.waitpid(pid, 0)
+    if st != 0 or not os.path.exists(path):
+        raise runner.HarnessError(f"subprocess helper ended with wait status {st}")
+    with open(path) as f:
+        results = json.load(f)
+    os.unlink(path)
+    return results
 
 
 # ---------------------------------------------------------------------------------------------
@@ -647,7 +704,8 @@ def run(ctx):
                 f"(none, -b, -p pk, -d d, -b -d d): each of 8 documents alone, under -s in one-line and two-line spelling, and every stream of <= {L} documents. "
                 "Expected status/stdout = mc.ref.cli applied to the outcome of the API evaluation of the same expression on the same input; a stream is compared with "
                 "the concatenation / max of its one-document runs. Non-trivial: the model is not UNSPEC for the case (streams: length >= 2); UNSPEC: evaluation "
-                "errors without -b, non-bool or error under -b outside -n, empty lines, values without a C20-specified JSON text, illegal --arg texts, stream length <= 1")
+                "errors under -n without -b, non-bool or error under -b outside -n, empty lines, values without a C20-specified JSON text under -n, illegal --arg texts, stream length <= 1; "
+                "a well-formed document on which the expression errs must still yield exactly one output line (content free)")
     ctx.assumptions = ["only the interpreted runner (the CLI has no other)", "-i, -f, -v, stat() and --arg values read from the environment are not explored",
                        "an expression starting with '-' is passed after '--' (argparse convention)",
                        "whether a text is a syntax error, and the value of an expression, are taken from the library API (Environment.compile/program/evaluate): C20 relates the CLI to that result",
@@ -661,9 +719,25 @@ def run(ctx):
 
     cases = build_cases(tier)
     card = cases_cardinality(tier)
-    by_group = {g: sum(1 for c in cases if c["group"] == g) for g in GROUP_SPACE}
+    by_group = {g: sum(1 for c in cases if c["group"] == g) for g in GROUP_SPACE if g != "tok"}
     if len({case_key(c["argv"], c["stdin"]) + c["group"] + c["mode"] for c in cases}) != len(cases):
         raise runner.HarnessError("case list has duplicates")
+    # 0. the fixed list through real interpreter processes, in the background
+    sl = subprocess_list(tier)
+    helper = start_subprocess_helper(sl, max(2, runner.NPROC // 2))
+    try:
+        _phases(ctx, tier, L, cases, card, by_group, sl, helper)
+    except BaseException:
+        try:
+            os.kill(helper[0], 9)
+            os.waitpid(helper[0], 0)
+        except OSError:
+            pass
+        raise
+    confirm(ctx)
+
+
+def _phases(ctx, tier, L, cases, card, by_group, sl, helper):
     # 1. fresh-fork observations, taken by workers that never run the library themselves
     fl = fresh_list(tier)
     per = max(1, -(-len(fl) // (runner.NPROC * 4)))
@@ -675,10 +749,13 @@ def run(ctx):
     t1 = time.time()
     # 2. every non-stream case in long-lived workers
     tasks = []
-    for g in GROUP_SPACE:
-        for lo, hi in runner.shards(by_group[g], 48 if g in ("tok", "n") else 8):
+    for g in by_group:  # the readable groups first, so that the first witness of a signature comes from them
+        for lo, hi in runner.shards(by_group[g], 16 if g == "n" else 8):
             keys = {case_key(c["argv"], c["stdin"]) for c in [c for c in cases if c["group"] == g][lo:hi]}
             tasks.append((tier, g, lo, hi, {k: fresh[k] for k in keys if k in fresh}))
+    for n in range(1, tok_len(tier) + 1):
+        for lo, hi in runner.shards(len(TOKENS) ** n, max(1, len(TOKENS) ** n // 400)):
+            tasks.append((tier, "tok", (n, lo), hi, {}))
     ctx.run_shards(case_shard, tasks)
     phase["cases_s"], t1 = round(time.time() - t1, 1), time.time()
     # 3. streams
@@ -690,10 +767,11 @@ def run(ctx):
     ctx.run_shards(stream_shard, stasks)
     phase["streams_s"], t1 = round(time.time() - t1, 1), time.time()
     # 4. the fixed list through a real interpreter process
-    sl = subprocess_list(tier)
+    sl = [(a, s, tag, sub) for (a, s, tag), sub in zip(sl, collect_subprocess_helper(*helper))]
+    phase["subprocess_wait_s"], t1 = round(time.time() - t1, 1), time.time()
     per = max(1, -(-len(sl) // (runner.NPROC * 2)))
     ctx.run_shards(subprocess_shard, [sl[i:i + per] for i in range(0, len(sl), per)])
-    phase["subprocesses_s"] = round(time.time() - t1, 1)
+    phase["subprocess_compare_s"] = round(time.time() - t1, 1)
     ctx.coverage_extra["phase_wall"] = phase
     # cardinalities (closed forms, independent of the loops)
     spaces = ctx.part.spaces
@@ -718,9 +796,8 @@ def run(ctx):
     ctx.coverage_extra["bound"] = {"stream_length": L, "documents": len(DOCS), "configurations": len(CONFIGS)}
     ctx.coverage_extra["expected_cases"] = expected
     due = sum(1 for c in cases if case_key(c["argv"], c["stdin"]) in fresh)
-    if extra.get("fresh_fork_comparisons", 0) != due or due != len(fresh) or due < len(CONFIGS) * len(DOCS):
+    if extra.get("fresh_fork_comparisons", 0) != due or due != len(fresh) or due < len(OPTSETS) * 2 * len(DOCS):
         raise runner.HarnessError(f"fresh comparisons made {extra.get('fresh_fork_comparisons')}, due {due}, fresh observations {len(fresh)}")
-    confirm(ctx)
 
 
 def confirm(ctx):
